@@ -586,6 +586,17 @@ def check_C16(ctx):
             rep.add("W1-view", "seriter:%s" % kind, "SerIter (%s elements) writes [%s] but Vec<T> writes [%s]" % (kind, " | ".join(p.show() for p in sa), " | ".join(p.show() for p in sb)), a[0].loc())
         elif len(rep.samples) < 8:
             rep.sample({"SerIter_vs_Vec": kind, "term": sa[0].show()})
+        # LEN: the loop runs over the wrapped iterator itself, to exhaustion (no take/skip/filter/... in between:
+        # such an adaptor bounds or changes the number of items counted, so the mismatch test no longer sees them)
+        for p in a[1]:
+            for ev in p.raw.events:
+                if ev[0] == "Loop" and isinstance(ev[1], tuple) and ev[1] and ev[1][0] == "itercount":
+                    itv = ev[1][2]
+                    own = isinstance(itv, tuple) and itv and itv[0] == "field" and itv[1] == ("self",)
+                    rep.oblige(own)
+                    if not own:
+                        rep.add("LEN", "seriter:%s:adaptor" % kind, "SerIter (%s): the item loop runs over `%s`, not over the wrapped iterator itself: items the adaptor hides are neither written nor counted" % (kind, guards.label(itv)[:120]), a[0].loc())
+                        break
         # LEN: error path
         errs = [p for p in a[1] if p.outcome == "err"]
         okp = False
@@ -748,6 +759,9 @@ def check_C18(ctx):
     u = ctx.universe()
     rules_schema.rules_schema_writer(u, rep)
     rules_schema.rules_schema_render(u, rep)
+    rep.rule("ENTRY", "Serialize::serialize and serialize_with_schema put the same atoms on the backend in the same order and both end by flushing it")
+    ne = rules_schema.rule_entry_points(u, rep)
+    rep.floor("serialization entry points compared", ne, 2)
     rep.floor("SchemaWriter method paths analysed", rep.counters.get("schema_writer_paths", 0), 6)
     rep.floor("data index sites in the renderers", rep.counters.get("render_index_sites", 0), 2)
     return ("Sibling agreement between the recording writer's overrides and the default WriteWithNames methods (same stream), and dataflow of the recorded rows "
